@@ -5,7 +5,7 @@ From Coq Require Import ZifyBool Sorted.
 Local Open Scope Z_scope.
 
 (* ---------------------------------------------------------------- small tools *)
-Lemma check_ok c e : check c e = Ok tt <-> c = true.
+Lemma check_ok_iff c e : check c e = Ok tt <-> c = true.
 Proof. unfold check; destruct c; split; intros H; try reflexivity; discriminate. Qed.
 
 Lemma check_inv c e u : check c e = Ok u -> c = true.
@@ -271,8 +271,8 @@ Definition cfg_valid (c : bank_cfg) : Prop := bc_validate c = Ok tt.
 Definition emode_valid (g : caps) (c : bank_cfg) (es : emode_settings) : Prop :=
   em_validate es c (cap_init g) (cap_maint g) = Ok tt /\ es_sorted (es_entries es).
 
-Definition Valid (g : caps) (b : bank) : Prop :=
-  cfg_valid (b_cfg b) /\ emode_valid g (b_cfg b) (b_emode b).
+Definition Valid (g : caps) (b : cbank) : Prop :=
+  cfg_valid (cb_cfg b) /\ emode_valid g (cb_cfg b) (cb_emode b).
 
 (* em_validate reads only the entries and the two liability weights *)
 Lemma em_validate_ext es es' c c' ci cm :
@@ -330,14 +330,14 @@ Qed.
 
 Lemma bank_configure_inv b o b' :
   bank_configure b o = Ok b' ->
-  cfg_valid (b_cfg b') /\ b_emode b' = b_emode b /\
-  bc_op_state (b_cfg b') = match o_op_state o with Some s => s | None => bc_op_state (b_cfg b) end /\
+  cfg_valid (cb_cfg b') /\ cb_emode b' = cb_emode b /\
+  bc_op_state (cb_cfg b') = match o_op_state o with Some s => s | None => bc_op_state (cb_cfg b) end /\
   (forall s, o_op_state o = Some s -> s <> OP_KILLED).
 Proof.
   unfold bank_configure. intros H.
   apply bind_ok in H as (st & Hst & H).
   apply bind_ok in H as (f1 & _ & H). apply bind_ok in H as (f2 & _ & H). apply bind_ok in H as (f3 & _ & H).
-  apply bind_ok in H as (u & Hv & H). apply Ok_inj in H. subst b'. cbn [b_cfg b_emode bc_op_state].
+  apply bind_ok in H as (u & Hv & H). apply Ok_inj in H. subst b'. cbn [cb_cfg cb_emode bc_op_state].
   split; [exact (res_unit_ok _ _ Hv)|]. split; [reflexivity|].
   destruct (o_op_state o) as [s|].
   - apply bind_ok in Hst as (u0 & Hc & Hst). apply check_inv in Hc. apply Ok_inj in Hst. subst st.
@@ -352,10 +352,10 @@ Lemma configure_bank_valid g b o b' :
   ix_configure_bank g b o = Ok b' -> Valid g b -> Valid g b'.
 Proof.
   unfold ix_configure_bank. intros H [Hc [He Hs]].
-  destruct (get_flag b FREEZE_SETTINGS).
+  destruct (cb_get_flag b FREEZE_SETTINGS).
   - apply Ok_inj in H. subst b'. unfold bank_configure_unfrozen. split; [|split].
-    + unfold cfg_valid. cbn [b_cfg]. rewrite bc_validate_limits. exact Hc.
-    + cbn [b_cfg b_emode]. rewrite <- He. apply em_validate_ext; reflexivity.
+    + unfold cfg_valid. cbn [cb_cfg]. rewrite bc_validate_limits. exact Hc.
+    + cbn [cb_cfg cb_emode]. rewrite <- He. apply em_validate_ext; reflexivity.
     + exact Hs.
   - apply bind_ok in H as (b1 & H1 & H). apply bind_ok in H as (u & Hv & H). apply Ok_inj in H. subst b1.
     apply bank_configure_inv in H1 as (A & B & _). split; [exact A|]. split; [exact (res_unit_ok _ _ Hv)|].
@@ -364,8 +364,8 @@ Qed.
 
 (* the "liability weights changed after e-mode was set" path: an unfrozen configure re-validates *)
 Lemma configure_revalidates_emode g b o b' :
-  ix_configure_bank g b o = Ok b' -> get_flag b FREEZE_SETTINGS = false ->
-  em_validate (b_emode b') (b_cfg b') (cap_init g) (cap_maint g) = Ok tt /\ b_emode b' = b_emode b.
+  ix_configure_bank g b o = Ok b' -> cb_get_flag b FREEZE_SETTINGS = false ->
+  em_validate (cb_emode b') (cb_cfg b') (cap_init g) (cap_maint g) = Ok tt /\ cb_emode b' = cb_emode b.
 Proof.
   unfold ix_configure_bank. intros H Hf. rewrite Hf in H.
   apply bind_ok in H as (b1 & H1 & H). apply bind_ok in H as (u & Hv & H). apply Ok_inj in H. subst b1.
@@ -383,11 +383,11 @@ Lemma interest_only_valid g b io b' :
   ix_configure_interest_only b io = Ok b' -> Valid g b -> Valid g b'.
 Proof.
   unfold ix_configure_interest_only. intros H [Hc [He Hs]].
-  destruct (get_flag b FREEZE_SETTINGS).
+  destruct (cb_get_flag b FREEZE_SETTINGS).
   - apply Ok_inj in H. subst b'. repeat split; assumption.
   - apply bind_ok in H as (u & Hv & H). apply Ok_inj in H. subst b'. split; [|split].
-    + cbn [b_cfg]. apply bc_validate_with_ir; [exact Hc | exact (res_unit_ok _ _ Hv)].
-    + cbn [b_cfg b_emode]. rewrite <- He. apply em_validate_ext; reflexivity.
+    + cbn [cb_cfg]. apply bc_validate_with_ir; [exact Hc | exact (res_unit_ok _ _ Hv)].
+    + cbn [cb_cfg cb_emode]. rewrite <- He. apply em_validate_ext; reflexivity.
     + exact Hs.
 Qed.
 
@@ -395,19 +395,19 @@ Lemma limits_only_valid g b d bo l b' :
   ix_configure_limits_only b d bo l = Ok b' -> Valid g b -> Valid g b'.
 Proof.
   unfold ix_configure_limits_only. intros H [Hc [He Hs]].
-  destruct (get_flag b FREEZE_SETTINGS); apply Ok_inj in H; subst b'; (split; [|split]);
-    try (unfold cfg_valid; cbn [b_cfg]; rewrite bc_validate_limits; exact Hc);
-    try (cbn [b_cfg b_emode]; rewrite <- He; apply em_validate_ext; reflexivity);
+  destruct (cb_get_flag b FREEZE_SETTINGS); apply Ok_inj in H; subst b'; (split; [|split]);
+    try (unfold cfg_valid; cbn [cb_cfg]; rewrite bc_validate_limits; exact Hc);
+    try (cbn [cb_cfg cb_emode]; rewrite <- He; apply em_validate_ext; reflexivity);
     exact Hs.
 Qed.
 
 Lemma configure_emode_valid g now b tag es b' :
-  ix_configure_emode g now b tag es = Ok b' -> cfg_valid (b_cfg b) -> Valid g b'.
+  ix_configure_emode g now b tag es = Ok b' -> cfg_valid (cb_cfg b) -> Valid g b'.
 Proof.
   unfold ix_configure_emode. intros H Hc.
   apply bind_ok in H as (u & Hv & H). apply Ok_inj in H. subst b'. split; [exact Hc|]. split.
-  - cbn [b_cfg b_emode]. rewrite <- (res_unit_ok _ _ Hv). apply em_validate_ext; reflexivity.
-  - cbn [b_emode update_emode_enabled es_entries]. apply ee_sort_sorted.
+  - cbn [cb_cfg cb_emode]. rewrite <- (res_unit_ok _ _ Hv). apply em_validate_ext; reflexivity.
+  - cbn [cb_emode update_emode_enabled es_entries]. apply ee_sort_sorted.
 Qed.
 
 Lemma propagate_valid g s oc b b' :
@@ -417,15 +417,35 @@ Proof.
   apply bind_ok in H as (u0 & _ & H).
   apply bind_ok in H as (u1 & _ & H). apply bind_ok in H as (u2 & Hv & H). apply Ok_inj in H. subst b'.
   split; [exact (res_unit_ok _ _ Hv)|]. split.
-  - cbn [b_cfg b_emode]. rewrite <- He. apply em_validate_ext; reflexivity.
+  - cbn [cb_cfg cb_emode]. rewrite <- He. apply em_validate_ext; reflexivity.
   - exact Hs.
+Qed.
+
+Lemma migrate_curve_inv b b' :
+  ix_migrate_curve b = Ok b' ->
+  cfg_valid (cb_cfg b') /\ cb_emode b' = cb_emode b /\ bc_op_state (cb_cfg b') = bc_op_state (cb_cfg b) /\
+  bc_lwi (cb_cfg b') = bc_lwi (cb_cfg b) /\ bc_lwm (cb_cfg b') = bc_lwm (cb_cfg b).
+Proof.
+  unfold ix_migrate_curve. intros H. apply bind_ok in H as (u0 & Hv0 & H).
+  destruct (ir_curve_type (bc_ir (cb_cfg b)) =? INTEREST_CURVE_SEVEN_POINT).
+  - apply Ok_inj in H. subst b'. repeat split. exact (res_unit_ok _ _ Hv0).
+  - apply bind_ok in H as (h & _ & H). apply bind_ok in H as (pu & _ & H). apply bind_ok in H as (pr & _ & H).
+    apply bind_ok in H as (u1 & Hv & H). apply Ok_inj in H. subst b'. cbn [cb_cfg cb_emode].
+    repeat split. exact (res_unit_ok _ _ Hv).
+Qed.
+
+Lemma migrate_curve_valid g b b' : ix_migrate_curve b = Ok b' -> Valid g b -> Valid g b'.
+Proof.
+  intros H [_ [He Hs]]. apply migrate_curve_inv in H as (A & B & _ & C & D).
+  split; [exact A|]. split; [|rewrite B; exact Hs].
+  rewrite <- He. apply em_validate_ext; [rewrite B; reflexivity | exact C | exact D].
 Qed.
 
 (* clone: sound only under a side condition on the source entries *)
 Lemma clone_emode_restricted g src dst dst' :
-  ix_clone_emode src dst = Ok dst' -> cfg_valid (b_cfg dst) ->
-  em_validate (b_emode src) (b_cfg dst) (cap_init g) (cap_maint g) = Ok tt ->
-  es_sorted (es_entries (b_emode src)) ->
+  ix_clone_emode src dst = Ok dst' -> cfg_valid (cb_cfg dst) ->
+  em_validate (cb_emode src) (cb_cfg dst) (cap_init g) (cap_maint g) = Ok tt ->
+  es_sorted (es_entries (cb_emode src)) ->
   Valid g dst'.
 Proof.
   unfold ix_clone_emode. intros H Hc Hv Hs. apply Ok_inj in H. subst dst'.
@@ -434,7 +454,7 @@ Qed.
 
 Lemma clone_emode_same_liab_weights g src dst dst' :
   ix_clone_emode src dst = Ok dst' -> Valid g src -> Valid g dst ->
-  bc_lwi (b_cfg src) = bc_lwi (b_cfg dst) -> bc_lwm (b_cfg src) = bc_lwm (b_cfg dst) ->
+  bc_lwi (cb_cfg src) = bc_lwi (cb_cfg dst) -> bc_lwm (cb_cfg src) = bc_lwm (cb_cfg dst) ->
   Valid g dst'.
 Proof.
   intros H [_ [Hes Hss]] [Hcd _] E1 E2.
@@ -448,13 +468,14 @@ Definition not_clone (r : cfg_req) : Prop := match r with RCloneFrom _ => False 
 Lemma paths_preserve_valid g b r b' :
   not_clone r -> apply_req g b r = Ok b' -> Valid g b -> Valid g b'.
 Proof.
-  destruct r as [o|io|d bo l|now tag es|src|s oc]; cbn [not_clone apply_req]; intros Hn H Hv.
+  destruct r as [o|io|d bo l|now tag es|src|s oc|]; cbn [not_clone apply_req]; intros Hn H Hv.
   - eapply configure_bank_valid; eassumption.
   - eapply interest_only_valid; eassumption.
   - eapply limits_only_valid; eassumption.
   - eapply configure_emode_valid; [eassumption | exact (proj1 Hv)].
   - contradiction.
   - eapply propagate_valid; eassumption.
+  - eapply migrate_curve_valid; eassumption.
 Qed.
 
 Lemma sequences_preserve_valid g rs : forall b,
@@ -467,53 +488,55 @@ Proof.
 Qed.
 
 (* ---------------------------------------------------------------- killed-state transitions *)
-Definition op_of (b : bank) : Z := bc_op_state (b_cfg b).
+Definition op_of (b : cbank) : Z := bc_op_state (cb_cfg b).
 
 Lemma no_request_kills g b r b' :
   apply_req g b r = Ok b' -> op_of b <> OP_KILLED -> op_of b' <> OP_KILLED.
 Proof.
-  unfold op_of. destruct r as [o|io|d bo l|now tag es|src|s oc]; cbn [apply_req]; intros H Hk.
-  - unfold ix_configure_bank in H. destruct (get_flag b FREEZE_SETTINGS).
+  unfold op_of. destruct r as [o|io|d bo l|now tag es|src|s oc|]; cbn [apply_req]; intros H Hk.
+  - unfold ix_configure_bank in H. destruct (cb_get_flag b FREEZE_SETTINGS).
     + apply Ok_inj in H. subst b'. exact Hk.
     + apply bind_ok in H as (b1 & H1 & H). apply bind_ok in H as (u & _ & H). apply Ok_inj in H. subst b1.
       apply bank_configure_inv in H1 as (_ & _ & E & Hne). rewrite E.
       destruct (o_op_state o) as [s|]; [apply Hne; reflexivity | exact Hk].
-  - unfold ix_configure_interest_only in H. destruct (get_flag b FREEZE_SETTINGS).
+  - unfold ix_configure_interest_only in H. destruct (cb_get_flag b FREEZE_SETTINGS).
     + apply Ok_inj in H. subst b'. exact Hk.
     + apply bind_ok in H as (u & _ & H). apply Ok_inj in H. subst b'. exact Hk.
-  - unfold ix_configure_limits_only in H. destruct (get_flag b FREEZE_SETTINGS); apply Ok_inj in H; subst b'; exact Hk.
+  - unfold ix_configure_limits_only in H. destruct (cb_get_flag b FREEZE_SETTINGS); apply Ok_inj in H; subst b'; exact Hk.
   - unfold ix_configure_emode in H. apply bind_ok in H as (u & _ & H). apply Ok_inj in H. subst b'. exact Hk.
   - unfold ix_clone_emode in H. apply Ok_inj in H. subst b'. exact Hk.
   - unfold ix_propagate_staked in H. apply bind_ok in H as (u0 & _ & H).
     apply bind_ok in H as (u1 & _ & H). apply bind_ok in H as (u2 & _ & H).
     apply Ok_inj in H. subst b'. exact Hk.
+  - apply migrate_curve_inv in H as (_ & _ & E & _). rewrite E. exact Hk.
 Qed.
 
 (* a request leaves the killed state only if it is an unfrozen full configure naming a new state *)
-Definition may_revive (b : bank) (r : cfg_req) : Prop :=
+Definition may_revive (b : cbank) (r : cfg_req) : Prop :=
   match r with
-  | RConfigure o => get_flag b FREEZE_SETTINGS = false /\ o_op_state o <> None
+  | RConfigure o => cb_get_flag b FREEZE_SETTINGS = false /\ o_op_state o <> None
   | _ => False
   end.
 
 Lemma killed_stays_killed g b r b' :
   apply_req g b r = Ok b' -> op_of b = OP_KILLED -> ~ may_revive b r -> op_of b' = OP_KILLED.
 Proof.
-  unfold op_of. destruct r as [o|io|d bo l|now tag es|src|s oc]; cbn [apply_req may_revive]; intros H Hk Hn.
-  - unfold ix_configure_bank in H. destruct (get_flag b FREEZE_SETTINGS) eqn:Ef.
+  unfold op_of. destruct r as [o|io|d bo l|now tag es|src|s oc|]; cbn [apply_req may_revive]; intros H Hk Hn.
+  - unfold ix_configure_bank in H. destruct (cb_get_flag b FREEZE_SETTINGS) eqn:Ef.
     + apply Ok_inj in H. subst b'. exact Hk.
     + apply bind_ok in H as (b1 & H1 & H). apply bind_ok in H as (u & _ & H). apply Ok_inj in H. subst b1.
       apply bank_configure_inv in H1 as (_ & _ & E & _). rewrite E.
       destruct (o_op_state o) as [s|]; [|exact Hk]. exfalso. apply Hn. split; [reflexivity | discriminate].
-  - unfold ix_configure_interest_only in H. destruct (get_flag b FREEZE_SETTINGS).
+  - unfold ix_configure_interest_only in H. destruct (cb_get_flag b FREEZE_SETTINGS).
     + apply Ok_inj in H. subst b'. exact Hk.
     + apply bind_ok in H as (u & _ & H). apply Ok_inj in H. subst b'. exact Hk.
-  - unfold ix_configure_limits_only in H. destruct (get_flag b FREEZE_SETTINGS); apply Ok_inj in H; subst b'; exact Hk.
+  - unfold ix_configure_limits_only in H. destruct (cb_get_flag b FREEZE_SETTINGS); apply Ok_inj in H; subst b'; exact Hk.
   - unfold ix_configure_emode in H. apply bind_ok in H as (u & _ & H). apply Ok_inj in H. subst b'. exact Hk.
   - unfold ix_clone_emode in H. apply Ok_inj in H. subst b'. exact Hk.
   - unfold ix_propagate_staked in H. apply bind_ok in H as (u0 & _ & H).
     apply bind_ok in H as (u1 & _ & H). apply bind_ok in H as (u2 & _ & H).
     apply Ok_inj in H. subst b'. exact Hk.
+  - apply migrate_curve_inv in H as (_ & _ & E & _). rewrite E. exact Hk.
 Qed.
 
 (* ---------------------------------------------------------------- witnesses of the two findings *)
@@ -527,13 +550,13 @@ Definition w_revive_opt : cfg_opt :=
   mkCO None None None None None None (Some OP_OPERATIONAL) None None None None None None None None None.
 
 (* F3: a killed bank is set back to Operational by lending_pool_configure_bank *)
-Definition w_killed : bank := mkBank (w_cfg ONE ONE OP_KILLED) CLOSE_ENABLED_FLAG es_zeroed.
+Definition w_killed : cbank := mkCBank (w_cfg ONE ONE OP_KILLED) CLOSE_ENABLED_FLAG es_zeroed.
 
 Lemma killed_revived_refuted :
   exists g b o b', Valid g b /\ op_of b = OP_KILLED /\ ix_configure_bank g b o = Ok b' /\ op_of b' = OP_OPERATIONAL.
 Proof.
   exists w_caps, w_killed, w_revive_opt.
-  exists (mkBank (w_cfg ONE ONE OP_OPERATIONAL) CLOSE_ENABLED_FLAG es_zeroed).
+  exists (mkCBank (w_cfg ONE ONE OP_OPERATIONAL) CLOSE_ENABLED_FLAG es_zeroed).
   split; [|split; [reflexivity | split; [vm_compute; reflexivity | reflexivity]]].
   split; [vm_compute; reflexivity | apply emode_valid_zeroed].
 Qed.
@@ -542,8 +565,8 @@ Qed.
    weights 1.0: collateral weight 1.5 >= liability weight 1.0, unbounded leverage *)
 Definition w_entries : list emode_entry :=
   ee_sort (mkEE 7 0 (ONE + ONE / 2) (ONE + ONE / 2 + ONE / 10) :: repeat ee_zero 9).
-Definition w_src : bank := mkBank (w_cfg (2 * ONE) (2 * ONE) OP_OPERATIONAL) CLOSE_ENABLED_FLAG (mkES 5 0 1 w_entries).
-Definition w_dst : bank := mkBank (w_cfg ONE ONE OP_OPERATIONAL) CLOSE_ENABLED_FLAG es_zeroed.
+Definition w_src : cbank := mkCBank (w_cfg (2 * ONE) (2 * ONE) OP_OPERATIONAL) CLOSE_ENABLED_FLAG (mkES 5 0 1 w_entries).
+Definition w_dst : cbank := mkCBank (w_cfg ONE ONE OP_OPERATIONAL) CLOSE_ENABLED_FLAG es_zeroed.
 
 Lemma w_entries_sorted : es_sorted w_entries.
 Proof. apply ee_sort_sorted. Qed.
@@ -551,10 +574,10 @@ Proof. apply ee_sort_sorted. Qed.
 Lemma clone_emode_refuted :
   exists g src dst dst',
     Valid g src /\ Valid g dst /\ ix_clone_emode src dst = Ok dst' /\
-    em_validate (b_emode dst') (b_cfg dst') (cap_init g) (cap_maint g) = Err EBadEmodeConfig /\
-    (exists e, In e (es_entries (b_emode dst')) /\ ee_is_empty e = false /\ bc_lwi (b_cfg dst') <= ee_init e).
+    em_validate (cb_emode dst') (cb_cfg dst') (cap_init g) (cap_maint g) = Err EBadEmodeConfig /\
+    (exists e, In e (es_entries (cb_emode dst')) /\ ee_is_empty e = false /\ bc_lwi (cb_cfg dst') <= ee_init e).
 Proof.
-  exists w_caps, w_src, w_dst, (mkBank (b_cfg w_dst) (b_flags w_dst) (b_emode w_src)).
+  exists w_caps, w_src, w_dst, (mkCBank (cb_cfg w_dst) (cb_flags w_dst) (cb_emode w_src)).
   split; [|split; [|split; [reflexivity | split]]].
   - split; [vm_compute; reflexivity|]. split; [vm_compute; reflexivity | exact w_entries_sorted].
   - split; [vm_compute; reflexivity | apply emode_valid_zeroed].
